@@ -1,0 +1,11 @@
+//go:build verif
+
+package batching
+
+// VerifSetMaxBatchSize lets the simulator exercise the batch-splitting branch
+// of nextBatch; the shipped value is fixed by the Batcher's constructor.
+func (s *Batcher[T]) VerifSetMaxBatchSize(n int) {
+	s.mu.Lock()
+	defer s.mu.Unlock()
+	s.maxBatchSize = n
+}
